@@ -150,11 +150,15 @@ theorem wsutil_unsafe_sites : Gen.facts_wsutil_unsafe = [] := by decide +kernel
 /-- Every pool acquisition and release (deferred releases after the last use). -/
 theorem ws_pool_sites :
     Gen.facts_ws_pool =
-      ["Dialer_Upgrade: pbufio.GetReader(conn, nonZero(d.ReadBufferSize, DefaultClientReadBufferSize), )",
+      ["Dialer_Upgrade: defer pbufio.PutReader(br)",
+       "Dialer_Upgrade: defer pbufio.PutWriter(bw)",
+       "Dialer_Upgrade: pbufio.GetReader(conn, nonZero(d.ReadBufferSize, DefaultClientReadBufferSize), )",
        "Dialer_Upgrade: pbufio.GetWriter(conn, nonZero(d.WriteBufferSize, DefaultClientWriteBufferSize), )",
        "Dialer_Upgrade: pbufio.PutReader(br)",
        "Dialer_Upgrade: pbufio.PutWriter(bw)",
        "PutReader: pbufio.PutReader(br)",
+       "Upgrader_Upgrade: defer pbufio.PutReader(br)",
+       "Upgrader_Upgrade: defer pbufio.PutWriter(bw)",
        "Upgrader_Upgrade: pbufio.GetReader(conn, nonZero(u.ReadBufferSize, DefaultServerReadBufferSize), )",
        "Upgrader_Upgrade: pbufio.GetWriter(conn, nonZero(u.WriteBufferSize, DefaultServerWriteBufferSize), )",
        "Upgrader_Upgrade: pbufio.PutReader(br)",
